@@ -1,7 +1,8 @@
 (** GraphInvProofs.v — every reachable state of the concrete graph model satisfies [Inv]
     (C01/C02/C03 backbone), and the first consequences: at most one edge per pair, the read
     views agree, the time-series lookups equal a scan.  PROOFS ONLY. *)
-From CG Require Import Base Digraph Graph GraphObs GraphInv GraphLemmas.
+From CG Require Import Base Digraph Graph GraphObs GraphInv.
+From CG Require Export GraphLemmas.
 
 (** * The structural part of the invariant (fields 1-8), independent of the codec *)
 
@@ -785,4 +786,789 @@ Section InvProofs.
     destruct (delete_edge g s d None) as [g1|x] eqn:Ed; [|apply good_err, HI].
     apply good_add_or_restore. eapply inv_delete_edge; eassumption.
   Qed.
+
+  (** ** Folding an Inv-preserving step (the bulk adders and [seq_edges]) *)
+
+  Definition okstep {X} (F : graph -> X -> res graph * graph) (acc : res graph * graph) (x : X)
+    : res graph * graph :=
+    match acc with
+    | (Ok g', _) => F g' x
+    | (Err e, gl) => (Err e, gl)
+    end.
+
+  Lemma good_fold {X} k (F : graph -> X -> res graph * graph) :
+    (forall g x, Inv parse k g -> Good k (F g x)) ->
+    forall xs acc, Good k acc -> Good k (fold_left (okstep F) xs acc).
+  Proof.
+    intros HF. induction xs as [|x xs IH]; intros acc HG; cbn [fold_left]; [exact HG|].
+    apply IH. destruct acc as [[g'|e] gl]; cbn [okstep].
+    - apply HF. apply (proj2 HG). reflexivity.
+    - exact HG.
+  Qed.
+
+  Theorem good_seq_edges k g calls : Inv parse k g -> Good k (seq_edges parse k g calls).
+  Proof.
+    intros HI. unfold seq_edges.
+    apply (good_fold k (fun g' (c : endpoint * endpoint * etype * meta) =>
+                          let '(sp, dp, ty, m) := c in add_edge parse k g' sp dp ty (Some m) true)).
+    - intros g' [[[sp dp] ty] m] HI'. apply good_add_edge, HI'.
+    - apply good_ok, HI.
+  Qed.
+
+  Theorem good_add_nodes_from k g ids : Inv parse k g -> Good k (add_nodes_from parse k g ids).
+  Proof.
+    intros HI. unfold add_nodes_from.
+    apply (good_fold k (fun g' id => lift g' (add_node_id parse k g' id VUnspec None))).
+    - intros g' id HI'. apply good_lift; [exact HI'|].
+      intros g'' Hadd. eapply inv_add_node_id; eassumption.
+    - apply good_ok, HI.
+  Qed.
+
+  Theorem good_add_edges_from k g pairs v :
+    Inv parse k g -> Good k (add_edges_from parse k g pairs v).
+  Proof.
+    intros HI. unfold add_edges_from.
+    apply (good_fold k (fun g' (p : name * name) =>
+                          add_edge parse k g' (str_ep (fst p)) (str_ep (snd p)) Dir None v)).
+    - intros g' p HI'. apply good_add_edge, HI'.
+    - apply good_ok, HI.
+  Qed.
+
+  Theorem good_add_fully_connected k g ins outs :
+    Inv parse k g -> Good k (add_fully_connected parse k g ins outs).
+  Proof. intros HI. unfold add_fully_connected. apply good_add_edges_from, HI. Qed.
+
+  Theorem good_add_path k g path v : Inv parse k g -> Good k (add_path parse k g path v).
+  Proof.
+    intros HI. unfold add_path. destruct path as [|a path]; [apply good_err, HI|].
+    apply (good_fold k (fun g' (p : name * name) =>
+                          match edge_at g' (fst p) (snd p) with
+                          | Some _ => (Ok g', g')
+                          | None => add_edge parse k g' (str_ep (fst p)) (str_ep (snd p)) Dir None v
+                          end)).
+    - intros g' p HI'. destruct (edge_at g' (fst p) (snd p)); [apply good_ok, HI'|].
+      apply good_add_edge, HI'.
+    - apply good_ok, HI.
+  Qed.
+
+  Theorem good_add_paths k g paths : Inv parse k g -> Good k (add_paths parse k g paths).
+  Proof.
+    intros HI. unfold add_paths. destruct paths as [|a paths]; [apply good_err, HI|].
+    apply (good_fold k (fun g' p => add_path parse k g' p true)).
+    - intros g' p HI'. apply good_add_path, HI'.
+    - apply good_ok, HI.
+  Qed.
+
+  Theorem good_add_time_edge k g sv st dv dt m v :
+    Inv parse k g -> Good k (add_time_edge parse fmt k g sv st dv dt m v).
+  Proof.
+    intros HI. unfold add_time_edge. destruct k; [apply good_err, HI|].
+    destruct (fmt sv st); [|apply good_err, HI]. destruct (fmt dv dt); [|apply good_err, HI].
+    apply good_add_edge, HI.
+  Qed.
+
+  (** ** replace_node *)
+
+  Lemma Forall2_map_self {A B} (R : A -> B -> Prop) (f : A -> B) l :
+    (forall x, In x l -> R x (f x)) -> Forall2 R l (map f l).
+  Proof.
+    induction l as [|a l IH]; intros H; cbn [map]; constructor.
+    - apply H. left; reflexivity.
+    - apply IH. intros x Hx. apply H. right; exact Hx.
+  Qed.
+
+  (** in-place form: the node keeps its identifier and its directed lists *)
+  Lemma inv_update_meta k g id n vt' m' :
+    Inv parse k g -> get_node g id = Some n ->
+    (k = TS -> exists v l, parse id = Some (v, l) /\ meta_var m' = Some v /\ meta_lag m' = Some l) ->
+    Inv parse k
+      {| gnodes := update_node (fun _ => {| nid := nid n; nvt := vt'; nmeta := m';
+                                            ninb := ninb n; noutb := noutb n |}) id (gnodes g);
+         gsrc := gsrc g; gdst := gdst g; gmeta := gmeta g; glag := glag g; gvar := gvar g |}.
+  Proof.
+    intros HI Hget Htag. apply inv_split in HI. destruct HI as [HS [HP HT]].
+    set (n' := {| nid := nid n; nvt := vt'; nmeta := m'; ninb := ninb n; noutb := noutb n |}).
+    set (f := fun x : node => if name_eqb id (nid x) then n' else x).
+    apply find_node_some in Hget. destruct Hget as [Hnin Hnid].
+    assert (Hf : forall x, In x (gnodes g) ->
+                 nid (f x) = nid x /\ ninb (f x) = ninb x /\ noutb (f x) = noutb x).
+    { intros x Hx. unfold f. destruct (name_eqb_spec id (nid x)) as [E|_]; [|auto].
+      assert (x = n).
+      { apply (nodup_map_inj nid (gnodes g)); auto; [apply (s_nodup_nodes g HS)|congruence]. }
+      subst x. auto. }
+    assert (Hids : map nid (update_node (fun _ => n') id (gnodes g)) = map nid (gnodes g)).
+    { unfold update_node. rewrite map_map. apply map_ext_in. intros x Hx. apply (Hf x Hx). }
+    assert (Hin : forall x', In x' (update_node (fun _ => n') id (gnodes g)) ->
+                  exists x, In x (gnodes g) /\ x' = f x).
+    { intros x' Hx'. unfold update_node in Hx'. apply in_map_iff in Hx'.
+      destruct Hx' as (x & E & Hx). exists x. split; [exact Hx|symmetry; exact E]. }
+    apply inv_split. split.
+    - destruct HS as [H1 H2 H3 H4 H5 H6 H7 H8].
+      constructor; unfold node_ids, edge_keys in *; cbn [gnodes gsrc gdst]; rewrite ?Hids;
+        try assumption.
+      + intros x' Hx'. destruct (Hin x' Hx') as (x & Hx & ->).
+        destruct (Hf x Hx) as (A & B & C). rewrite A, B. apply H7, Hx.
+      + intros x' Hx'. destruct (Hin x' Hx') as (x & Hx & ->).
+        destruct (Hf x Hx) as (A & B & C). rewrite A, C. apply H8, Hx.
+    - split; intros Ek; [apply HP, Ek|].
+      apply (tsinv_frame g); cbn [gnodes gsrc glag gvar]; auto.
+      unfold same_tags, update_node. apply Forall2_map_self. intros x Hx. fold (f x).
+      destruct (Hf x Hx) as (A & _). split; [symmetry; exact A|].
+      unfold f. destruct (name_eqb_spec id (nid x)) as [E|_]; [|auto].
+      assert (x = n).
+      { apply (nodup_map_inj nid (gnodes g)); auto; [apply (s_nodup_nodes g HS)|congruence]. }
+      subst x. cbn [nmeta n'].
+      destruct (Htag Ek) as (v & l & Hp & Hv & Hl).
+      destruct (ts_nodeok (HT Ek) n Hnin) as (v0 & l0 & Hp0 & Hv0 & Hl0).
+      rewrite Hnid, Hp in Hp0. injection Hp0 as <- <-. split; congruence.
+  Qed.
+
+  Theorem good_replace_node_base k g id new_id vt m :
+    Inv parse k g ->
+    (k = TS -> new_id = None -> forall mm, m = Some mm ->
+       exists v l, parse id = Some (v, l) /\ meta_var mm = Some v /\ meta_lag mm = Some l) ->
+    Good k (replace_node_base parse k g id new_id vt m).
+  Proof.
+    intros HI Hm. unfold replace_node_base.
+    destruct (get_node g id) as [n|] eqn:En; [|apply good_err, HI].
+    destruct new_id as [id'|].
+    - destruct (node_exists g id'); [apply good_err, HI|]. cbv zeta.
+      destruct (add_node_id parse k g id' _ _) as [g1|x] eqn:E1; [|apply good_err, HI].
+      assert (HI1 : Inv parse k g1) by (eapply inv_add_node_id; eassumption).
+      match goal with |- Good _ (match seq_edges parse k g1 ?c with _ => _ end) =>
+        destruct (good_seq_edges k g1 c HI1) as [A B];
+        destruct (seq_edges parse k g1 c) as [[g2|x] g2'] end; cbn [fst snd] in *.
+      + assert (HI2 : Inv parse k g2) by (apply B; reflexivity).
+        destruct (delete_node k g2 id) as [g3|x] eqn:Ed; [|apply good_err, HI2].
+        apply good_ok. eapply inv_delete_node; eassumption.
+      + destruct (delete_node k g2' id') as [g3|y] eqn:Ed; [|apply good_err, A].
+        apply good_err. eapply inv_delete_node; eassumption.
+    - cbv zeta. apply good_ok. apply inv_update_meta; [exact HI|exact En|].
+      intros Ek. destruct m as [mm|].
+      + apply (Hm Ek eq_refl mm eq_refl).
+      + apply inv_split in HI. destruct HI as [_ [_ HT]].
+        apply find_node_some in En. destruct En as [Hnin Hnid].
+        destruct (ts_nodeok (HT Ek) n Hnin) as (v & l & Hp & Hv & Hl).
+        exists v, l. rewrite <- Hnid. auto.
+  Qed.
+
+  Theorem good_replace_node k g id new_id lag var vt m :
+    Inv parse k g -> Good k (replace_node parse fmt k g id new_id lag var vt m).
+  Proof.
+    intros HI. unfold replace_node. destruct k.
+    - destruct lag, var; try (apply good_err, HI).
+      apply good_replace_node_base; [exact HI|discriminate].
+    - cbv zeta.
+      match goal with |- Good _ (match ?X with Ok _ => _ | Err _ => _ end) =>
+        destruct X as [nid'|x] eqn:Enid end; [|apply good_err, HI].
+      match goal with |- Good _ (match ?X with Ok _ => _ | Err _ => _ end) =>
+        destruct X as [m'|x] eqn:Em end; [|apply good_err, HI].
+      apply good_replace_node_base; [exact HI|].
+      intros _ -> mm ->. destruct m as [mm0|]; [|discriminate].
+      destruct (parse id) as [[cv cl]|]; [|discriminate].
+      injection Em as <-. exists cv, cl.
+      rewrite meta_var_set_tags, meta_lag_set_tags. auto.
+  Qed.
+
+  (** * The history theorems *)
+
+  Theorem inv_init : inv_init_statement parse.
+  Proof.
+    intros k m. constructor; cbn.
+    - constructor.
+    - constructor.
+    - constructor.
+    - intros e [].
+    - intros e [].
+    - intros e [].
+    - intros n [].
+    - intros n [].
+    - auto.
+    - intros _. constructor; cbn; try constructor; intros x [].
+  Qed.
+
+  Theorem good_run_op k g o : Inv parse k g -> Good k (run_op parse fmt k g o).
+  Proof.
+    intros HI. destruct o; cbn [run_op].
+    - apply good_lift; [exact HI|]. intros g' H. eapply inv_add_node_id; eassumption.
+    - apply good_lift; [exact HI|]. intros g' H. eapply inv_add_node_obj; eassumption.
+    - apply good_lift; [exact HI|]. intros g' H. eapply inv_add_node_vl; eassumption.
+    - apply good_add_nodes_from, HI.
+    - apply good_add_fully_connected, HI.
+    - apply good_lift; [exact HI|]. intros g' H. eapply inv_delete_node; eassumption.
+    - apply good_replace_node, HI.
+    - apply good_add_edge, HI.
+    - apply good_add_edges_from, HI.
+    - apply good_add_path, HI.
+    - apply good_add_paths, HI.
+    - apply good_add_time_edge, HI.
+    - apply good_lift; [exact HI|]. intros g' H. eapply inv_delete_edge; eassumption.
+    - apply good_change_edge_type, HI.
+    - apply good_replace_edge, HI.
+  Qed.
+
+  Theorem inv_step : inv_step_statement parse fmt.
+  Proof. intros k g o HI. unfold step. exact (proj1 (good_run_op k g o HI)). Qed.
+
+  (** a successful operation returns the state it leaves behind, which satisfies Inv *)
+  Theorem inv_run_op_ok k g o g' :
+    Inv parse k g -> fst (run_op parse fmt k g o) = Ok g' -> Inv parse k g'.
+  Proof. intros HI. exact (proj2 (good_run_op k g o HI) g'). Qed.
+
+  Theorem inv_run_from k ops : forall g, Inv parse k g -> Inv parse k (run parse fmt k ops g).
+  Proof.
+    unfold run. induction ops as [|o ops IH]; intros g HI; cbn [fold_left]; [exact HI|].
+    apply IH, inv_step, HI.
+  Qed.
+
+  Theorem inv_run : inv_run_statement parse fmt.
+  Proof. intros k ops m. apply inv_run_from, inv_init. Qed.
+
+  (** * Consequences of the invariant *)
+
+  Lemma one_edge_list a b (es : list edge) :
+    NoDup (map edge_key es) ->
+    (forall e, In e es -> ~ In (edst e, esrc e) (map edge_key es)) ->
+    length (filter (fun e => (name_eqb a (esrc e) && name_eqb b (edst e))
+                             || (name_eqb b (esrc e) && name_eqb a (edst e))) es) <= 1.
+  Proof.
+    set (p := fun e => (name_eqb a (esrc e) && name_eqb b (edst e))
+                       || (name_eqb b (esrc e) && name_eqb a (edst e))).
+    assert (Hp : forall e, p e = true -> edge_key e = (a, b) \/ edge_key e = (b, a)).
+    { intros e He. unfold p in He. apply orb_true_iff in He.
+      fold (key_is a b e) in He. fold (key_is b a e) in He.
+      rewrite !key_is_true in He. exact He. }
+    induction es as [|e es IH]; intros Hnd Hrev; cbn [filter length]; [lia|].
+    cbn [map] in Hnd. inversion Hnd as [|? ? Hnin Hnd']; subst.
+    assert (IH' : length (filter p es) <= 1).
+    { apply IH; [exact Hnd'|]. intros x Hx Hin. apply (Hrev x (or_intror Hx)). right. exact Hin. }
+    destruct (p e) eqn:Epe; [|exact IH'].
+    rewrite (filter_none p es); [cbn [length]; lia|].
+    intros x Hx. destruct (p x) eqn:Epx; [|reflexivity]. exfalso.
+    assert (Hkx : In (edge_key x) (map edge_key es)) by (apply in_map, Hx).
+    assert (Hrx : ~ In (edst e, esrc e) (map edge_key es)).
+    { intros Hin. apply (Hrev e (or_introl eq_refl)). right. exact Hin. }
+    destruct (Hp e Epe) as [Ke|Ke], (Hp x Epx) as [Kx|Kx].
+    - apply Hnin. rewrite Ke, <- Kx. exact Hkx.
+    - apply Hrx. unfold edge_key in Ke. injection Ke as -> ->. rewrite <- Kx. exact Hkx.
+    - apply Hrx. unfold edge_key in Ke. injection Ke as -> ->. rewrite <- Kx. exact Hkx.
+    - apply Hnin. rewrite Ke, <- Kx. exact Hkx.
+  Qed.
+
+  Theorem one_edge_per_pair : one_edge_per_pair_statement parse.
+  Proof.
+    intros k g a b HI. apply one_edge_list.
+    - apply (inv_nodup_keys HI).
+    - apply (inv_noreverse HI).
+  Qed.
+
+  Lemma pair_leb_e_total x y : pair_leb_e x y = true \/ pair_leb_e y x = true.
+  Proof. apply pair_leb_total. Qed.
+  Lemma pair_leb_e_trans x y z :
+    pair_leb_e x y = true -> pair_leb_e y z = true -> pair_leb_e x z = true.
+  Proof. apply pair_leb_trans. Qed.
+
+  (** sorting by key is insensitive to the order of a list with distinct keys *)
+  Lemma isort_edges_perm (l1 l2 : list edge) :
+    NoDup (map edge_key l1) -> Permutation l1 l2 ->
+    isort pair_leb_e l1 = isort pair_leb_e l2.
+  Proof.
+    intros Hnd P. apply (sorted_perm_eq_on pair_leb_e).
+    - intros x y Hx Hy L1 L2. apply isort_in in Hx, Hy.
+      apply (nodup_map_inj edge_key l1); auto.
+      apply pair_leb_antisym; assumption.
+    - apply isort_sorted; [apply pair_leb_e_total|apply pair_leb_e_trans].
+    - apply isort_sorted; [apply pair_leb_e_total|apply pair_leb_e_trans].
+    - rewrite <- (isort_perm pair_leb_e l1), <- (isort_perm pair_leb_e l2). exact P.
+  Qed.
+
+  Theorem views_agree : views_agree_statement parse.
+  Proof.
+    intros k g n HI. split; [|split].
+    - unfold v_edges_into, edges_into. apply isort_edges_perm.
+      + apply nodup_map_filter.
+        apply (Permutation_NoDup (l := edge_keys g)); [|apply (inv_nodup_keys HI)].
+        unfold edge_keys. apply Permutation_map. symmetry. apply (inv_mirror HI).
+      + apply perm_filter, (inv_mirror HI).
+    - intros Hn. destruct (find_node_in _ _ Hn) as (x & Hx).
+      unfold v_parents, v_children, get_node. rewrite Hx.
+      apply find_node_some in Hx. destruct Hx as [Hin Hid].
+      pose proof (inv_inb HI x Hin) as Pi. pose proof (inv_outb HI x Hin) as Po.
+      rewrite Hid in Pi, Po. split; f_equal.
+      + rewrite dedup_nodup_id; [apply sort_names_perm_eq, Pi|].
+        apply (Permutation_NoDup (l := dir_into g n)); [symmetry; exact Pi|].
+        apply dinto_nodup, (inv_nodup_keys HI).
+      + rewrite dedup_nodup_id; [apply sort_names_perm_eq, Po|].
+        apply (Permutation_NoDup (l := dir_from g n)); [symmetry; exact Po|].
+        apply dfrom_nodup, (inv_nodup_keys HI).
+    - intros s d. unfold v_edge_exists. destruct (edge_at g s d) as [e|] eqn:E.
+      + split; [intros _|reflexivity]. apply find_edge_some in E. destruct E as (Hin & <- & <-).
+        apply (in_map edge_key) in Hin. exact Hin.
+      + split; [discriminate|]. apply edge_at_none in E. intros H; contradiction.
+  Qed.
+
+  Theorem lookups_eq_scan : lookups_eq_scan_statement parse.
+  Proof.
+    intros g l v HI. destruct (inv_ts HI eq_refl) as [_ T2 T3 _]. split.
+    - unfold v_nodes_at_lag.
+      apply (idx_scan Z.eqb (fun n => meta_lag (nmeta n)) (glag g) (gnodes g) l T2).
+    - unfold v_nodes_for_var.
+      apply (idx_scan name_eqb (fun n => meta_var (nmeta n)) (gvar g) (gnodes g) v T3).
+  Qed.
 End InvProofs.
+
+(** * Further facts for the other history proofs *)
+
+Lemma delete_edge_eq g s d oty e :
+  node_exists g s = true -> node_exists g d = true -> edge_at g s d = Some e ->
+  match oty with Some t => negb (etype_eqb t (ety e)) | None => false end = false ->
+  delete_edge g s d oty
+  = Ok {| gnodes := if etype_eqb (ety e) Dir
+                    then upd2 (remove_first s) (remove_first d) s d (gnodes g)
+                    else gnodes g;
+          gsrc := drop_edge s d (gsrc g); gdst := drop_edge s d (gdst g);
+          gmeta := gmeta g; glag := glag g; gvar := gvar g |}.
+Proof. intros A B C D. unfold delete_edge. rewrite A, B, C, D. reflexivity. Qed.
+
+(** ** The cycle-rollback of [_set_edge] (insert, then delete_edge) restores the state exactly;
+    this is why [add_edge_try] may report the state before the insertion. *)
+Theorem rollback_exact g e :
+  SInv g -> In (esrc e) (node_ids g) -> In (edst e) (node_ids g) ->
+  ~ In (esrc e, edst e) (edge_keys g) ->
+  delete_edge (insert_edge g e) (esrc e) (edst e) None = Ok g.
+Proof.
+  intros HS Hs Hd Hk.
+  assert (Hkd : ~ In (esrc e, edst e) (map edge_key (gdst g))).
+  { intros Hin. apply Hk. unfold edge_keys. eapply Permutation_in; [|exact Hin].
+    apply Permutation_map, (s_mirror g HS). }
+  assert (Hids : node_ids (insert_edge g e) = node_ids g).
+  { unfold node_ids. rewrite insert_edge_eq. cbn [gnodes]. apply ids_if_upd2. }
+  rewrite (delete_edge_eq _ _ _ None e).
+  - rewrite insert_edge_eq. cbn [gnodes gsrc gdst gmeta glag gvar].
+    assert (Hdrop : forall es, ~ In (esrc e, edst e) (map edge_key es) ->
+                    drop_edge (esrc e) (edst e) (es ++ [e]) = es).
+    { intros es Hes. unfold drop_edge. rewrite filter_app.
+      fold (drop_edge (esrc e) (edst e) es). rewrite (drop_edge_absent _ _ _ Hes).
+      cbn [filter]. rewrite !name_eqb_refl. cbn [andb negb]. apply app_nil_r. }
+    rewrite (Hdrop _ Hk), (Hdrop _ Hkd).
+    assert (Hns : (if etype_eqb (ety e) Dir
+                   then upd2 (remove_first (esrc e)) (remove_first (edst e)) (esrc e) (edst e)
+                          (if etype_eqb (ety e) Dir
+                           then upd2 (fun l => l ++ [esrc e]) (fun l => l ++ [edst e])
+                                  (esrc e) (edst e) (gnodes g)
+                           else gnodes g)
+                   else (if etype_eqb (ety e) Dir
+                         then upd2 (fun l => l ++ [esrc e]) (fun l => l ++ [edst e])
+                                (esrc e) (edst e) (gnodes g)
+                         else gnodes g)) = gnodes g).
+    { destruct (etype_eqb (ety e) Dir); [|reflexivity].
+      rewrite upd2_compose. apply upd2_id. intros n Hn. split; intros Hid.
+      - apply remove_first_snoc. intros Hin. apply Hk.
+        apply (Permutation_in _ (s_inb g HS n Hn)) in Hin. apply in_dinto in Hin.
+        destruct Hin as (x & Hx & _ & Hxs & Hxd). unfold edge_keys.
+        apply in_map_iff. exists x. split; [unfold edge_key; congruence|exact Hx].
+      - apply remove_first_snoc. intros Hin. apply Hk.
+        apply (Permutation_in _ (s_outb g HS n Hn)) in Hin. apply in_dfrom in Hin.
+        destruct Hin as (x & Hx & _ & Hxs & Hxd). unfold edge_keys.
+        apply in_map_iff. exists x. split; [unfold edge_key; congruence|exact Hx]. }
+    rewrite Hns. destruct g; reflexivity.
+  - apply node_exists_in. rewrite Hids. exact Hs.
+  - apply node_exists_in. rewrite Hids. exact Hd.
+  - unfold edge_at. rewrite insert_edge_eq. cbn [gsrc].
+    rewrite find_edge_app_r by (apply find_edge_none, Hk).
+    cbn [find_edge]. rewrite !name_eqb_refl. reflexivity.
+  - reflexivity.
+Qed.
+
+(** hence a validated [_set_edge] that detects a cycle fails with exactly ECyclic *)
+Corollary set_edge_cyclic_outcome g s d ty m :
+  SInv g -> In s (node_ids g) -> In d (node_ids g) ->
+  edge_at g s d = None -> edge_at g d s = None ->
+  depends_on_itself (insert_edge g {| esrc := s; edst := d; ety := ty; emeta := m |}) d
+    = Some true ->
+  set_edge g s d ty m true = Err ECyclic.
+Proof.
+  intros HS Hs Hd E1 E2 Hc. unfold set_edge. rewrite E1, E2, Hc.
+  pose proof (rollback_exact g {| esrc := s; edst := d; ety := ty; emeta := m |} HS Hs Hd) as R.
+  cbn [esrc edst] in R. rewrite R; [reflexivity|]. apply edge_at_none, E1.
+Qed.
+
+(** ** Deleting an existing edge / node cannot fail *)
+
+Lemma delete_edge_succeeds g e :
+  SInv g -> In e (gsrc g) -> exists g', delete_edge g (esrc e) (edst e) None = Ok g'.
+Proof.
+  intros HS He. destruct (s_endpoints g HS e He) as [Is Id].
+  eexists. apply (delete_edge_eq g (esrc e) (edst e) None e).
+  - apply node_exists_in, Is.
+  - apply node_exists_in, Id.
+  - apply find_edge_unique; [apply (s_nodup_keys g HS)|exact He].
+  - reflexivity.
+Qed.
+
+Lemma del_edges_succeeds es : forall g1,
+  SInv g1 -> NoDup (map edge_key es) -> incl es (gsrc g1) ->
+  exists g2, del_edges es (Ok g1) = Ok g2.
+Proof.
+  induction es as [|e es IH]; intros g1 HS Hnd Hinc.
+  - exists g1. reflexivity.
+  - cbn [map] in Hnd. inversion Hnd as [|? ? Hnin Hnd']; subst.
+    destruct (delete_edge_succeeds g1 e HS (Hinc e (or_introl eq_refl))) as (g1' & Edel).
+    unfold del_edges. cbn [fold_left bind]. rewrite Edel. apply IH.
+    + eapply sinv_delete_edge; eassumption.
+    + exact Hnd'.
+    + intros x Hx. destruct (delete_edge_frame _ _ _ _ _ Edel) as (_ & _ & _ & _ & Fin).
+      apply Fin. split; [apply Hinc; right; exact Hx|].
+      intros E. apply Hnin. change (esrc e, edst e) with (edge_key e) in E. rewrite <- E.
+      apply in_map, Hx.
+Qed.
+
+Section Extras.
+  Variable parse : name -> option (name * Z).
+  Variable fmt : name -> Z -> option name.
+
+  Theorem delete_node_succeeds k g id :
+    Inv parse k g -> In id (node_ids g) -> exists g', delete_node k g id = Ok g'.
+  Proof.
+    intros HI Hid. apply inv_split in HI. destruct HI as [HS [HP HT]].
+    destruct (find_node_in _ _ Hid) as (n & Hget).
+    assert (Hrem : exists g1, idx_remove k g n = Ok g1).
+    { unfold idx_remove. destruct k; [eexists; reflexivity|].
+      destruct (HT eq_refl) as [T1 T2 T3 _].
+      pose proof (find_node_some _ _ _ Hget) as [Hnin Hnid].
+      destruct (T1 n Hnin) as (v & l & _ & Hv & Hl). rewrite Hl, Hv.
+      destruct (idx_remove_some Z.eqb Z.eqb_spec (fun n => meta_lag (nmeta n))
+                  (glag g) (gnodes g) id n l T2 Hget Hl) as (gl & El).
+      destruct (idx_remove_some name_eqb name_eqb_spec (fun n => meta_var (nmeta n))
+                  (gvar g) (gnodes g) id n v T3 Hget Hv) as (gv & Ev).
+      rewrite Hnid, El, Ev. eexists; reflexivity. }
+    destruct Hrem as (g1 & E1).
+    destruct (idx_remove_graph _ _ _ _ E1) as (Gn & Gs & Gd & _).
+    assert (HS1 : SInv g1) by (eapply sinv_ext; eassumption).
+    destruct (del_edges_succeeds
+                (filter (fun e => name_eqb id (esrc e) || name_eqb id (edst e)) (sorted_edges g1))
+                g1 HS1) as (g2 & E2).
+    - apply nodup_map_filter. unfold sorted_edges.
+      apply (Permutation_NoDup (l := edge_keys g1)); [|apply (s_nodup_keys g1 HS1)].
+      unfold edge_keys. apply Permutation_map, isort_perm.
+    - intros x Hx. apply filter_In in Hx. destruct Hx as [Hx _].
+      unfold sorted_edges in Hx. apply isort_in in Hx. exact Hx.
+    - unfold delete_node, get_node. rewrite Hget, E1. cbn [bind].
+      unfold del_edges in E2. rewrite E2. cbn [bind]. eexists; reflexivity.
+  Qed.
+
+  (** ** On success the reported state is the returned state *)
+
+  Definition Coh (r : res graph * graph) : Prop := forall g, fst r = Ok g -> snd r = g.
+
+  Lemma coh_ok g : Coh (Ok g, g).
+  Proof. intros g' [= <-]. reflexivity. Qed.
+  Lemma coh_err x g : Coh (Err x, g).
+  Proof. intros g' H. discriminate. Qed.
+  Lemma coh_lift g r : Coh (lift g r).
+  Proof. destruct r; [apply coh_ok|apply coh_err]. Qed.
+
+  Lemma coh_fold {X} (F : graph -> X -> res graph * graph) :
+    (forall g x, Coh (F g x)) -> forall xs acc, Coh acc -> Coh (fold_left (okstep F) xs acc).
+  Proof.
+    intros HF. induction xs as [|x xs IH]; intros acc HC; cbn [fold_left]; [exact HC|].
+    apply IH. destruct acc as [[g'|e] gl]; cbn [okstep]; [apply HF|apply coh_err].
+  Qed.
+
+  Lemma coh_add_edge k g sp dp ty m v : Coh (add_edge parse k g sp dp ty m v).
+  Proof.
+    unfold add_edge. cbv zeta.
+    destruct (add_edge_try parse k g sp dp ty m v) as [[g'|x] gl]; [apply coh_ok|apply coh_err].
+  Qed.
+
+  Lemma coh_add_or_restore k g1 sp dp ty m sp0 dp0 ty0 m0 :
+    Coh (match add_edge parse k g1 sp dp ty m true with
+         | (Ok g2, _) => (Ok g2, g2)
+         | (Err x, g2) =>
+             match add_edge parse k g2 sp0 dp0 ty0 m0 false with
+             | (Ok g3, _) => (Err x, g3)
+             | (Err y, g3) => (Err y, g3)
+             end
+         end).
+  Proof.
+    destruct (add_edge parse k g1 sp dp ty m true) as [[g2|x] g2']; [apply coh_ok|].
+    destruct (add_edge parse k g2' sp0 dp0 ty0 m0 false) as [[g3|y] g3']; apply coh_err.
+  Qed.
+
+  Lemma coh_add_path k g path v : Coh (add_path parse k g path v).
+  Proof.
+    unfold add_path. destruct path as [|a path]; [apply coh_err|].
+    apply (coh_fold (fun g' (p : name * name) =>
+                       match edge_at g' (fst p) (snd p) with
+                       | Some _ => (Ok g', g')
+                       | None => add_edge parse k g' (str_ep (fst p)) (str_ep (snd p)) Dir None v
+                       end)).
+    - intros g' p. destruct (edge_at g' (fst p) (snd p)); [apply coh_ok|apply coh_add_edge].
+    - apply coh_ok.
+  Qed.
+
+  Lemma coh_replace_node_base k g id new_id vt m :
+    Coh (replace_node_base parse k g id new_id vt m).
+  Proof.
+    unfold replace_node_base. destruct (get_node g id) as [n|]; [|apply coh_err].
+    destruct new_id as [id'|]; [|apply coh_ok].
+    destruct (node_exists g id'); [apply coh_err|]. cbv zeta.
+    destruct (add_node_id parse k g id' _ _) as [g1|x]; [|apply coh_err].
+    destruct (seq_edges parse k g1 _) as [[g2|x] g2'].
+    - destruct (delete_node k g2 id); [apply coh_ok|apply coh_err].
+    - destruct (delete_node k g2' id'); apply coh_err.
+  Qed.
+
+  Theorem run_op_coh k g o : Coh (run_op parse fmt k g o).
+  Proof.
+    destruct o; cbn [run_op]; try apply coh_lift; try apply coh_add_edge.
+    - unfold add_nodes_from.
+      apply (coh_fold (fun g' id => lift g' (add_node_id parse k g' id VUnspec None)));
+        [intros; apply coh_lift|apply coh_ok].
+    - unfold add_fully_connected, add_edges_from.
+      apply (coh_fold (fun g' (p : name * name) =>
+                         add_edge parse k g' (str_ep (fst p)) (str_ep (snd p)) Dir None true));
+        [intros; apply coh_add_edge|apply coh_ok].
+    - unfold replace_node. destruct k.
+      + destruct lag, var; try apply coh_err. apply coh_replace_node_base.
+      + cbv zeta.
+        match goal with |- Coh (match ?X with Ok _ => _ | Err _ => _ end) =>
+          destruct X as [nid'|x] end; [|apply coh_err].
+        match goal with |- Coh (match ?X with Ok _ => _ | Err _ => _ end) =>
+          destruct X as [m'|x] end; [|apply coh_err].
+        apply coh_replace_node_base.
+    - unfold add_edges_from.
+      apply (coh_fold (fun g' (p : name * name) =>
+                         add_edge parse k g' (str_ep (fst p)) (str_ep (snd p)) Dir None validate));
+        [intros; apply coh_add_edge|apply coh_ok].
+    - apply coh_add_path.
+    - unfold add_paths. destruct paths as [|a paths]; [apply coh_err|].
+      apply (coh_fold (fun g' p => add_path parse k g' p true));
+        [intros; apply coh_add_path|apply coh_ok].
+    - unfold add_time_edge. destruct k; [apply coh_err|].
+      destruct (fmt sv st); [|apply coh_err]. destruct (fmt dv dt); [|apply coh_err].
+      apply coh_add_edge.
+    - unfold change_edge_type. destruct (edge_at g s d) as [e|]; [|apply coh_err].
+      destruct (etype_eqb (ety e) ty); [apply coh_ok|].
+      destruct (delete_edge g s d (Some (ety e))); [|apply coh_err]. apply coh_add_or_restore.
+    - unfold replace_edge. destruct (edge_at g s d) as [e|]; [|apply coh_err].
+      destruct (edge_at g s' d'); [apply coh_err|]. cbv zeta.
+      destruct (delete_edge g s d None); [|apply coh_err]. apply coh_add_or_restore.
+  Qed.
+
+  Corollary step_of_ok k g o g' :
+    fst (run_op parse fmt k g o) = Ok g' -> step parse fmt k g o = g'.
+  Proof. apply run_op_coh. Qed.
+End Extras.
+
+(** * The directed part as a [Digraph.digraph]: how the primitives act on [dgraph] *)
+
+Lemma arc_dgraph g a b :
+  arc (dgraph g) a b <-> exists e, In e (gsrc g) /\ ety e = Dir /\ esrc e = a /\ edst e = b.
+Proof.
+  unfold arc, dgraph. cbn [arcs]. rewrite in_map_iff. split.
+  - intros (e & Hk & He). apply filter_In in He. destruct He as [He Hd].
+    unfold edge_key in Hk. injection Hk as Hs Hdst. exists e.
+    split; [exact He|]. split; [destruct (etype_eqb_spec (ety e) Dir); congruence|auto].
+  - intros (e & He & Hd & Hs & Hdst). exists e. split; [unfold edge_key; congruence|].
+    apply filter_In. split; [exact He|]. rewrite Hd. reflexivity.
+Qed.
+
+Lemma dgraph_wf g : SInv g -> wf (dgraph g).
+Proof.
+  intros HS. split; [exact (s_nodup_nodes g HS)|].
+  intros a b Hab. apply arc_dgraph in Hab. destruct Hab as (e & He & _ & <- & <-).
+  exact (s_endpoints g HS e He).
+Qed.
+
+(** the per-node directed lists are the parents / children in [dgraph] *)
+Lemma inb_arc g d n p :
+  SInv g -> get_node g d = Some n -> (In p (ninb n) <-> arc (dgraph g) p d).
+Proof.
+  intros HS Hget. apply find_node_some in Hget. destruct Hget as [Hin Hid].
+  pose proof (s_inb g HS n Hin) as P. rewrite Hid in P.
+  rewrite arc_dgraph, <- in_dinto. split; apply Permutation_in; [exact P|symmetry; exact P].
+Qed.
+
+Lemma outb_arc g s n c :
+  SInv g -> get_node g s = Some n -> (In c (noutb n) <-> arc (dgraph g) s c).
+Proof.
+  intros HS Hget. apply find_node_some in Hget. destruct Hget as [Hin Hid].
+  pose proof (s_outb g HS n Hin) as P. rewrite Hid in P.
+  rewrite arc_dgraph, <- in_dfrom. split; apply Permutation_in; [exact P|symmetry; exact P].
+Qed.
+
+Lemma node_ids_insert_edge g e : node_ids (insert_edge g e) = node_ids g.
+Proof. unfold node_ids. rewrite insert_edge_eq. cbn [gnodes]. apply ids_if_upd2. Qed.
+
+Lemma dgraph_insert_dir g e :
+  ety e = Dir -> dgraph (insert_edge g e) = add_arc (dgraph g) (esrc e) (edst e).
+Proof.
+  intros Hd. unfold dgraph, add_arc. cbn [verts arcs]. rewrite node_ids_insert_edge. f_equal.
+  rewrite insert_edge_eq. cbn [gsrc]. rewrite filter_app, map_app. cbn [filter].
+  rewrite Hd. reflexivity.
+Qed.
+
+Lemma dgraph_insert_nondir g e : ety e <> Dir -> dgraph (insert_edge g e) = dgraph g.
+Proof.
+  intros Hd. unfold dgraph. rewrite node_ids_insert_edge. f_equal.
+  rewrite insert_edge_eq. cbn [gsrc]. rewrite filter_app, map_app. cbn [filter].
+  destruct (etype_eqb_spec (ety e) Dir); [contradiction|]. apply app_nil_r.
+Qed.
+
+Lemma dgraph_delete_edge g s d oty g' :
+  delete_edge g s d oty = Ok g' ->
+  verts (dgraph g') = verts (dgraph g)
+  /\ (forall a b, arc (dgraph g') a b <-> arc (dgraph g) a b /\ (a, b) <> (s, d)).
+Proof.
+  intros Hdel. destruct (delete_edge_frame _ _ _ _ _ Hdel) as (_ & _ & _ & _ & Fin).
+  destruct (delete_edge_ok _ _ _ _ _ Hdel) as (e & _ & _ & _ & Eg). split.
+  - subst g'. unfold dgraph, node_ids. cbn [verts gnodes]. apply ids_if_upd2.
+  - intros a b. rewrite !arc_dgraph. split.
+    + intros (x & Hx & Hd & <- & <-). apply Fin in Hx. destruct Hx as [Hx Hk].
+      split; [exists x; auto|exact Hk].
+    + intros [(x & Hx & Hd & <- & <-) Hk]. exists x. split; [apply Fin; auto|auto].
+Qed.
+
+Lemma dgraph_delete_node k g id g' :
+  SInv g -> delete_node k g id = Ok g' ->
+  (forall x, In x (verts (dgraph g')) <-> In x (verts (dgraph g)) /\ x <> id)
+  /\ (forall a b, arc (dgraph g') a b -> arc (dgraph g) a b /\ a <> id /\ b <> id).
+Proof.
+  intros HS Hdel.
+  destruct (delete_node_facts _ _ _ _ HS Hdel)
+    as (n & g1 & g2 & _ & _ & _ & Htags & Hcl & En & Es & _).
+  split.
+  - intros x. unfold dgraph, node_ids. cbn [verts]. rewrite En.
+    assert (Hids : map nid (gnodes g2) = map nid (gnodes g)).
+    { transitivity (map fst (map tags (gnodes g2))); [rewrite map_map; reflexivity|].
+      rewrite Htags, map_map. reflexivity. }
+    rewrite <- Hids, !in_map_iff. split.
+    + intros (y & <- & Hy). apply filter_In in Hy. destruct Hy as [Hy Hne].
+      unfold not_id in Hne. apply negb_true_iff, name_eqb_neq in Hne.
+      split; [exists y; auto|congruence].
+    + intros [(y & <- & Hy) Hne]. exists y. split; [reflexivity|]. apply filter_In.
+      split; [exact Hy|]. unfold not_id. apply negb_true_iff, name_eqb_neq. congruence.
+  - intros a b Hab. apply arc_dgraph in Hab. destruct Hab as (e & He & Hd & <- & <-).
+    rewrite Es in He. destruct (Hcl e He) as (Hin & Ns & Nd).
+    split; [apply arc_dgraph; exists e; auto|auto].
+Qed.
+
+(** adding a node leaves the arcs alone *)
+Lemma dgraph_idx_add_push k g n g' :
+  idx_add k (push_node g n) n = Ok g' ->
+  verts (dgraph g') = verts (dgraph g) ++ [nid n] /\ arcs (dgraph g') = arcs (dgraph g).
+Proof.
+  intros Hadd. unfold idx_add in Hadd. destruct k.
+  - injection Hadd as <-. unfold dgraph, node_ids. cbn [verts arcs gnodes gsrc push_node].
+    rewrite map_app. split; reflexivity.
+  - destruct (meta_lag (nmeta n)); [|discriminate]. destruct (meta_var (nmeta n)); [|discriminate].
+    injection Hadd as <-. unfold dgraph, node_ids. cbn [verts arcs gnodes gsrc push_node].
+    rewrite map_app. split; reflexivity.
+Qed.
+
+(** * Non-vacuity: a mixed 4-node time-series state reached from the empty graph
+
+    The same history was run on the real [TimeSeriesCausalGraph]: identical outcomes
+    (None, None, None, None, EdgeDuplicatedError, ValueError, None, None,
+    ReverseEdgeExistsError, None), node order and edge list. *)
+From CG Require Names.
+
+Definition ex_X : name := [88%N].
+Definition ex_Y : name := [89%N].
+Definition ex_X1 : name := Eval vm_compute in Names.render ex_X (-1).   (* "X lag(n=1)" *)
+Definition ex_Y1 : name := Eval vm_compute in Names.render ex_Y (-1).   (* "Y lag(n=1)" *)
+
+Definition ex_ops : list op :=
+  [ OAddNodeVL ex_X (-1) VCont None;
+    OAddTimeEdge ex_X (-1) ex_X 0 None true;
+    OAddEdge (str_ep ex_Y) (str_ep ex_X) Und None true;
+    OAddTimeEdge ex_Y (-1) ex_Y 0 (Some [(ex_X, JInt 3)]) true;
+    OAddEdge (str_ep ex_Y) (str_ep ex_Y1) Bi None true;       (* duplicate after the swap *)
+    OAddEdge (str_ep ex_X) (str_ep ex_X1) Dir None true;      (* backwards in time *)
+    OAddEdge (str_ep ex_Y1) (str_ep ex_X) Dir None true;
+    OChangeEdgeType ex_Y1 ex_X UnkDir;
+    OAddEdge (str_ep ex_X) (str_ep ex_Y) Dir None true;       (* reverse exists *)
+    OReplaceNode ex_Y None None None (Some VBin) (Some [(ex_Y, JBool true)]) ].
+
+Definition ex_state : graph :=
+  Eval vm_compute in run Names.parse Names.fmt TS ex_ops (empty_graph []).
+
+Fixpoint ex_outcomes (g : graph) (ops : list op) : list (option err) :=
+  match ops with
+  | [] => []
+  | o :: r => outcome Names.parse Names.fmt TS g o
+              :: ex_outcomes (step Names.parse Names.fmt TS g o) r
+  end.
+
+Example ex_history_outcomes :
+  ex_outcomes (empty_graph []) ex_ops
+  = [None; None; None; None; Some EEdgeDup; Some EValue; None; None; Some EReverse; None].
+Proof. vm_compute. reflexivity. Qed.
+
+Example ex_state_shape :
+  node_ids ex_state = [ex_X1; ex_X; ex_Y; ex_Y1]
+  /\ map (fun e => (esrc e, edst e, ety e)) (gsrc ex_state)
+     = [(ex_X1, ex_X, Dir); (ex_Y, ex_X, Und); (ex_Y1, ex_Y, Dir); (ex_Y1, ex_X, UnkDir)]
+  /\ glag ex_state = [((-1)%Z, ex_X1); (0%Z, ex_X); (0%Z, ex_Y); ((-1)%Z, ex_Y1)]
+  /\ gvar ex_state = [(ex_X, ex_X1); (ex_X, ex_X); (ex_Y, ex_Y); (ex_Y, ex_Y1)]
+  /\ option_map nvt (get_node ex_state ex_Y) = Some VBin
+  /\ option_map (fun n => meta_get ex_Y (nmeta n)) (get_node ex_state ex_Y)
+     = Some (Some (JBool true)).
+Proof. vm_compute. repeat split; reflexivity. Qed.
+
+Example ex_state_inv : Inv Names.parse TS ex_state.
+Proof.
+  assert (E : ex_state = run Names.parse Names.fmt TS ex_ops (empty_graph []))
+    by (vm_compute; reflexivity).
+  rewrite E. apply inv_run.
+Qed.
+
+(** the same history on the plain class (the time-series operations are refused) *)
+Example ex_plain_inv :
+  let g := run Names.parse Names.fmt Plain ex_ops (empty_graph []) in
+  Inv Names.parse Plain g /\ node_ids g = [ex_Y; ex_X; ex_Y1; ex_X1] /\ length (gsrc g) = 4.
+Proof.
+  cbv zeta. split; [apply inv_run|]. vm_compute. split; reflexivity.
+Qed.
+
+(** the consequences, instantiated on the example state *)
+Example ex_views :
+  v_parents ex_state ex_X = Ok [ex_X1] /\ v_children ex_state ex_Y1 = Ok [ex_Y]
+  /\ v_nodes_at_lag ex_state (-1) = [ex_X1; ex_Y1].
+Proof. vm_compute. repeat split; reflexivity. Qed.
+
+(** the primitive lemmas are not vacuous either: deletions succeed on the example state *)
+Example ex_delete_edge_ok :
+  exists g', delete_edge ex_state ex_X1 ex_X None = Ok g' /\ length (gsrc g') = 3.
+Proof. eexists. split; vm_compute; reflexivity. Qed.
+
+Example ex_delete_node_ok :
+  exists g', delete_node TS ex_state ex_X = Ok g'
+             /\ node_ids g' = [ex_X1; ex_Y; ex_Y1] /\ length (gsrc g') = 1
+             /\ glag g' = [((-1)%Z, ex_X1); (0%Z, ex_Y); ((-1)%Z, ex_Y1)].
+Proof. eexists. split; [vm_compute; reflexivity|]. vm_compute. repeat split; reflexivity. Qed.
+
+(** [replace_node_base] ALONE does not preserve the time-series invariant: called in place with a
+    metadata dictionary lacking the reserved tags it drops them (the named hypothesis of
+    [good_replace_node_base] is necessary).  The public time-series [replace_node] re-derives
+    the tags first ([good_replace_node] needs no hypothesis). *)
+Example replace_node_base_ts_untagged_refuted :
+  exists g id m, Inv Names.parse TS g
+    /\ ~ Inv Names.parse TS (snd (replace_node_base Names.parse TS g id None None (Some m))).
+Proof.
+  exists ex_state, ex_X, []. split; [exact ex_state_inv|]. intros HI.
+  pose proof (ts_nodeok (inv_ts HI eq_refl)
+                {| nid := ex_X; nvt := VUnspec; nmeta := []; ninb := [ex_X1]; noutb := [] |})
+    as Hok.
+  destruct Hok as (v & l & _ & Hv & _).
+  - vm_compute. right. left. reflexivity.
+  - vm_compute in Hv. discriminate.
+Qed.
+
+Example replace_node_ts_retags :
+  option_map (fun n => (meta_var (nmeta n), meta_lag (nmeta n)))
+    (get_node (snd (replace_node Names.parse Names.fmt TS ex_state ex_X None None None None
+                      (Some []))) ex_X)
+  = Some (Some ex_X, Some 0%Z).
+Proof. vm_compute. reflexivity. Qed.
